@@ -38,6 +38,7 @@ type RouteJ struct {
 	GroupBy  []string          `json:"group_by,omitempty"` // nil = inherit; ["..."] = all
 	Receiver string            `json:"receiver,omitempty"`
 	Continue bool              `json:"continue,omitempty"`
+	Mute     []string          `json:"mute,omitempty"` // mute_time_intervals of the child route
 	GW       int64             `json:"gw,omitempty"` // own timers of the child route (ns); 0 = inherit
 	GI       int64             `json:"gi,omitempty"`
 	RI       int64             `json:"ri,omitempty"`
@@ -62,6 +63,11 @@ type InhJ struct {
 type Scenario struct {
 	Inhibit    []InhJ              `json:"inhibit_rules,omitempty"`
 	RouteLbls  map[string]string   `json:"route_labels,omitempty"` // `labels:` of the root route (values may be templates)
+	// TZOffset != 0: the process runs in a fixed local zone with this offset (seconds east of UTC) and the configuration
+	// defines the interval "fri" = every Friday WITHOUT a location (i.e. Friday in UTC); the virtual clock starts on
+	// Saturday 2000-01-01T00:00Z and no run lasts six days, so a route muted by "fri" is never muted — unless intervals
+	// without a location are evaluated in the local zone
+	TZOffset int `json:"tz_offset,omitempty"`
 	GW, GI, RI int64               `json:"-"`
 	GWs        string              `json:"group_wait"`
 	GIs        string              `json:"group_interval"`
@@ -107,6 +113,9 @@ func (sc *Scenario) YAML() string {
 			if r.Continue {
 				b.WriteString("    continue: true\n")
 			}
+			if len(r.Mute) > 0 {
+				fmt.Fprintf(&b, "    mute_time_intervals: [%s]\n", strings.Join(quoteAll(r.Mute), ", "))
+			}
 			gb("    ", r.GroupBy)
 			if r.GW != 0 {
 				fmt.Fprintf(&b, "    group_wait: %s\n", dur(r.GW))
@@ -122,6 +131,9 @@ func (sc *Scenario) YAML() string {
 	b.WriteString("receivers:\n")
 	for _, name := range vh.SortedKeys(sc.Receivers) {
 		fmt.Fprintf(&b, "- name: %s\n", name)
+	}
+	if sc.TZOffset != 0 {
+		b.WriteString("time_intervals:\n- name: fri\n  time_intervals:\n  - weekdays: ['friday']\n")
 	}
 	if len(sc.Inhibit) > 0 {
 		b.WriteString("inhibit_rules:\n")
@@ -165,6 +177,7 @@ type GenOpts struct {
 	Inhibit  bool // 1-2 inhibition rules over the scenario's label sets (drawn last: the other draws are unchanged)
 	RouteLbl bool // route labels on the root route, one of them a template over the group's alerts (no random draw)
 	Many     bool // 17-70 alerts in ONE group, submitted and re-sent in bursts (use a generator of its own)
+	TZ       bool // process local zone != UTC and every alert routed through a child route muted on (UTC) Fridays
 }
 
 func Gen(r *vh.Rand, o GenOpts) Scenario {
@@ -336,6 +349,16 @@ func Gen(r *vh.Rand, o GenOpts) Scenario {
 			sc.Ops[i].Dt = lim
 		}
 	}
+	if o.TZ && len(sc.Routes) == 0 {
+		sc.TZOffset = vh.Pick(r, []int{-3 * 3600, -10 * 3600, -1 * 3600})
+		seen := map[string]bool{}
+		for _, ls := range sc.LabelSets {
+			if an := ls["alertname"]; !seen[an] {
+				seen[an] = true
+				sc.Routes = append(sc.Routes, RouteJ{Receiver: "default", Match: map[string]string{"alertname": an}, Mute: []string{"fri"}})
+			}
+		}
+	}
 	if o.RouteLbl {
 		sc.RouteLbls = map[string]string{"team": "ops", "jobs": "{{ .CommonLabels.job }}", "n": "{{ len .Alerts }}"}
 	}
@@ -452,6 +475,12 @@ func Run(t *testing.T, sc *Scenario) *Result {
 			res.IDOf[lsKey(ls)] = i + 1
 			res.Hash[sim.HashAlert(ls)] = i + 1
 		}
+	}
+	if sc.TZOffset != 0 {
+		// process-global, as the TZ environment variable of a real deployment is; scenarios run one after the other
+		old := time.Local
+		time.Local = time.FixedZone("verif-local", sc.TZOffset)
+		defer func() { time.Local = old }()
 	}
 	ok := sim.Bubble(t, 10*time.Second, func(t *testing.T) {
 		ints := map[string][]sim.IntSpec{}
